@@ -257,6 +257,15 @@ def depth2_case(rng, fermi, with_conj=True, dagger=False):
             if v:
                 orc = f"{st['op']} returned an invalid array after fusing twice: {v}"
                 break
+        if orc is None:
+            # unfuse_all undoes ONE level: after the first call the axis fused first is still a fused axis
+            f1, u1, u2 = env2["f1"], env2["u1"], env2["u2"]
+            if u1.ndim != f1.ndim or not any(ix.subinfo is not None for ix in u1.indices):
+                orc = (f"unfuse_all of a twice-fused array returned rank {u1.ndim} with "
+                       f"{sum(ix.subinfo is not None for ix in u1.indices)} fused axes; expected rank {f1.ndim} with the "
+                       f"first fused axis still fused")
+            elif u2.ndim != x.ndim or any(ix.subinfo is not None for ix in u2.indices):
+                orc = f"the second unfuse_all did not restore rank {x.ndim} with plain indices"
         if orc is None and not fermi and with_conj and not dagger:
             try:
                 ref = x.conj().fuse(tuple(g1)).fuse(tuple(g2)).unfuse_all().unfuse_all()
